@@ -11,20 +11,26 @@ LEVEL = "model_checking"
 def gen_cases(ctx):
     cases = []
     quick = ctx.tier == "quick"
-    r = vlib.tlc_ok(vlib.tlc("ObjectOrder", "MCObjectOrderChk.cfg", coverage=True), "CheckOrder design check")
+    seqcfgs = ["GenObjectOrderSeq3.cfg"] if quick else ["GenObjectOrderSeq4.cfg", "GenObjectOrderSeq3v2.cfg"]
+    jobs = [lambda: vlib.tlc("ObjectOrder", "MCObjectOrderChk.cfg", coverage=True, workers=4),
+            lambda: vlib.tlc("ObjectOrder", "MCObjectOrderLaws.cfg" if quick else "MCObjectOrderLawsT.cfg", timeout=3000, workers=8),
+            lambda: vlib.tlc("ObjectOrder", "GenObjectOrderRows.cfg", workers=6),
+            lambda: vlib.build("order_replay", "order_replay.cpp")]
+    jobs += [(lambda cfg=cfg: vlib.tlc("ObjectOrder", cfg, workers=4)) for cfg in seqcfgs]
+    res = vlib.parallel(*jobs)
+    r = vlib.tlc_ok(res[0], "CheckOrder design check")
     vlib.require_actions(r, ["NextChk"], "CheckOrder design check")
     ctx.add_tlc(r, "CheckOrder I-layer = A-layer (unbounded streams over 27 (type,id) pairs)")
-    r = vlib.tlc_ok(vlib.tlc("ObjectOrder", "MCObjectOrderLaws.cfg" if quick else "MCObjectOrderLawsT.cfg", timeout=3000),
-                    "ordering laws")
+    r = vlib.tlc_ok(res[1], "ordering laws")
     ctx.add_tlc(r, "pair+triple laws (doc = impl, irreflexive, asymmetric, transitive, incomparability transitive, consistency)")
-    r = vlib.tlc_ok(vlib.tlc("ObjectOrder", "GenObjectOrderRows.cfg", workers=8), "matrix export")
+    r = vlib.tlc_ok(res[2], "matrix export")
     if len(r.cases) != 648:
         raise vlib.ModelFailure("expected 648 matrix rows, got %d" % len(r.cases))
     ctx.add_tlc(r, "comparison matrix export (648 x 648)")
     for row in r.cases:
         cases.append({"id": "row%d" % row["a"], "kind": "row", "a": row["a"], "obj": row["obj"], "row": row["row"]})
-    for cfg in (["GenObjectOrderSeq3.cfg"] if quick else ["GenObjectOrderSeq4.cfg", "GenObjectOrderSeq3v2.cfg"]):
-        r = vlib.tlc_ok(vlib.tlc("ObjectOrder", cfg, workers=8), "sequence export " + cfg)
+    for cfg, rr in zip(seqcfgs, res[4:]):
+        r = vlib.tlc_ok(rr, "sequence export " + cfg)
         ctx.add_tlc(r, "CheckOrder sequence export " + cfg)
         for i, h in enumerate(r.cases):
             cases.append({"id": "seq-%s-%d" % (cfg[14:-4], i), "kind": "seq", "steps": h})
